@@ -82,17 +82,21 @@ def firstGe (lo : Rat) : List Rat → Nat
   | [] => 0
   | c :: cs => if c ≥ lo then 0 else firstGe lo cs + 1
 
-/-- last position `i > 0` with `c_i <= hi`; 0 if none (`upper = 0` initially and `i > upper` is required) -/
-def lastLe (hi : Rat) (cs : List Rat) : Nat :=
-  (enum cs).foldl (fun acc (ic : Nat × Rat) => if ic.2 ≤ hi ∧ ic.1 > acc then ic.1 else acc) 0
+/-- the scan `upper = 0; for i: if c_i <= hi and i > upper: upper = i` from position `i` on, with the current `upper` -/
+def lastLeAux (hi : Rat) : Nat → List Rat → Nat → Nat
+  | _, [], acc => acc
+  | i, c :: cs, acc => lastLeAux hi (i + 1) cs (if c ≤ hi ∧ i > acc then i else acc)
 
-/-- `data_ranges[d]` of `find_data_in_domain`: `[max(lower - 1, 0), min(upper + 1, M - 1)]` — a Python slice, so the
-    upper end is EXCLUSIVE and position `M - 1` (the sample with the largest coordinate) is never included -/
+/-- last position with `c_i <= hi`; 0 if none -/
+def lastLe (hi : Rat) (cs : List Rat) : Nat := lastLeAux hi 0 cs 0
+
+/-- `data_ranges[d]` of `find_data_in_domain`: `[max(lower - 1, 0), min(upper + 1, M)]`, used as the Python slice
+    `sorted_data[d][a:b]` (upper end exclusive): positions `lower-1 .. upper` -/
 def dataRange (sortedCoords : List Rat) (lo hi : Rat) : Nat × Nat :=
   let M := sortedCoords.length
   let lower := firstGe lo sortedCoords
   let upper := lastLe hi sortedCoords
-  (lower - 1, min (upper + 1) (M - 1))
+  (lower - 1, min (upper + 1) M)
 
 /-- `find_data_in_domain(domain)`: sample indices lying in the slice of every dimension (`np.intersect1d`, ascending).
     `sortedIdx[d]` is `np.argsort(data[:, d])` -/
